@@ -11,13 +11,16 @@ CLAIM = ('Proved in Coq for the model, configurations without rotation, any buff
          "to the implementation's directory after shutdown (the plain files tile the logged bytes - C18_tiles_sound -, or merge "
          'to them in order when a file was revisited; what was logged since the last switch is at the end of the newly specified '
          'file or family) together with the correspondence check (model = implementation after every step): partial. ')
-THEOREMS = ["C18_reopen_switches", "C18_reset_switches", "C18_switches_tile", "C18_tiles_sound"]
+THEOREMS = ["C18_reopen_switches", "C18_reset_switches", "C18_switches_tile", "C18_reset_other_write_mode_rejected", "C18_reset_rejected_keeps_file", "C18_tiles_sound"]
 TRUSTED = ["modelled, not verified: Unix semantics of rename/unlink with an open file (inode model), BufWriter flush-on-drop"]
 ASSUMPTIONS = ["synchronous write modes; a reset onto the same path without append truncates (documented) and is not generated - with append it is",
                "records carry distinct payloads, so a tiling is unambiguous"]
 RULE = ("histories mixing writes, flushes, external rename/remove of the current file, reopen_output, reset_flw to another basename / "
         "discriminant / rotation setting, triggers; Direct and BufferDontFlush; with and without rotation; non-trivial = at least one "
         "reopen or reset with writes before and after it; distinct = distinct case text")
+
+
+VIA_LOGGER = 0.5   # share of the file-writer histories that is run once more through Logger / LoggerHandle
 
 
 def gen(rng, tier):
@@ -51,6 +54,12 @@ def gen(rng, tier):
                 ops.append("R")
         elif r < 0.86:
             rot2 = rng.random() < 0.5
+            if rng.random() < 0.1:
+                # a reset that asks for another write mode is rejected and changes nothing: logging goes on where it was
+                other = rng.choice([c for c in (None, 8, 64, 100) if c != cap])
+                rej = g.Cfg(base=b"rej%d" % moved, crit=None, cap=other)
+                ops.append("X:" + rej.token())
+                continue
             if rng.random() < 0.35:
                 # the same file specification with other rotation settings: another path (no rotation <-> rotation), or the
                 # same current file under another criterion / naming (then with append: without it the reset truncates, as documented)
